@@ -42,6 +42,41 @@ TB_STUB = ['kani::stub of bytes::BytesMut::reserve_inner by a function that asse
            'real function is a proof obligation), used to keep the re-allocation path out of the formula']
 
 PROPS = {
+    'C09': dict(
+        level='proof',
+        verus_units=['broker_state', 'broker_conn_id', 'broker_handlers_shutdown', 'broker_handlers_registry', 'broker_handlers_subs', 'broker_handlers_routing',
+                     'broker_handlers_bus_listener', 'broker_handlers_channel'],
+        trusted_base=TB_VERUS + TB_REGISTRY + [
+            'Broker::remove_channel_end is ASSUMED (closure capturing &mut self is outside Verus\'s subset); its contract '
+            '(units/_shared/remove_channel_end_contract.rs) is written from its body and call sites',
+            'the helper contracts used by shutdown_connection are imported verbatim from the units that verify the helpers '
+            '(remove_object: registry unit; remove_event_subscription, remove_all_events_subscription, remove_subscription: '
+            'subscription unit; remove_bus_listener: bus-listener unit)',
+        ],
+        assumptions=[
+            'precondition of shutdown_connection: registry, channel and bus-listener invariants in their strong form (every owner '
+            'and subscriber is a connected client). Established/preserved by the verified handlers of the registry, subscription '
+            'and routing units for the registry part; for channels and bus listeners the strong form (owners connected) is NOT '
+            'yet a postcondition of the channel / bus-listener handler units (create_channel, claim_channel_end, '
+            'create_bus_listener are not verified)',
+            'statistics counters: cfg(feature = "statistics") code is dropped by the extraction; not decided',
+        ],
+        undecided_clauses=[
+            'how a connection ends (clean shutdown, transport error, forced, task dropped): conn.rs is async code; decided is what '
+            'Broker::shutdown_connection does once the broker loop learns of it',
+            'every affected peer is notified once: notifications on the wire are not in the state model; decided for the queued '
+            'ones (ServiceDestroyed / InvalidService / unsubscribe / abort entries of the loop state)',
+            'published statistics counters; broker shutdown message to every connection; idle-shutdown request completes '
+            '(Broker::run, handle_event: async / closures)',
+        ],
+        explanation='Broker::shutdown_connection on its verbatim text (eight loops over the removed connection\'s lists, loop '
+                    'invariants spliced in place): afterwards the connection is gone and NOTHING refers to it any more - no bus '
+                    'listener, no object (hence none of its services and their pending calls), no per-event / all-events / service '
+                    'subscription and no channel end - the tables satisfy the strong invariant again (every owner and subscriber '
+                    'is a connected client), and exactly one abort is queued for every call the connection had pending. Lemma: '
+                    'under that invariant a broker without connections holds no objects, services, calls, channels or listeners '
+                    '(the debug_assert!s at the end of Broker::run).',
+    ),
     'C03': dict(
         level='proof',
         verus_units=['broker_object', 'broker_handlers_registry'],
